@@ -1049,7 +1049,14 @@ class Engine:
         key = "extent|%s" % sk
         self.oblige(st, fr, key, "extent", self.cur_line or fr.body.line, cond, "always")
         # the dual observation (not an obligation): this read reaches the end of the element on every visit
-        self.oblige(st, fr, "cover|%s" % sk, "cover", self.cur_line or fr.body.line, ("le", hlen - off - n), "info")
+        inloop = getattr(self, "_loop_blocks", None)
+        if inloop is None or inloop[0] is not fr.body:
+            lb = set()
+            for h_, bl_ in cfgm.natural_loops(fr.body).items():
+                lb |= set(bl_)
+            inloop = self._loop_blocks = (fr.body, lb)
+        where = "loop" if self.cur_block in inloop[1] else "once"
+        self.oblige(st, fr, "cover:%s|%s" % (where, sk), "cover", self.cur_line or fr.body.line, ("le", hlen - off - n), "info")
 
     def extent_escape(self, st, fr, v, what):
         """A slice / iterator over the extent-limited input leaves the analysed code (external reader, return value)."""
@@ -2010,6 +2017,8 @@ class NumEngine(Interp, Engine):
             for l in fr.old.values():
                 if l is not None:
                     self.pinned.update(l.syms())
+        if body.kind == "Closure" and body.parent and body.arg_count >= 2:
+            self.assume_closure_feed(fr, st, body)
         self.probe = PROBES.get(body.path)
         self.probe_loop_blocks = set()
         self.probe_next_block = None
@@ -2045,6 +2054,38 @@ class NumEngine(Interp, Engine):
             self.recording = False
         self.loops = self.termination(fr, inst)
         return [o for (r, k), o in self.obligations.items() if r == body.path]
+
+    def assume_closure_feed(self, fr, st, body):
+        """What the caller of a closure guarantees about its parameters, for the consumers whose protocol is fixed by the
+        standard library: std::array::from_fn::<T, N, _>(f) calls f(i) with 0 <= i < N."""
+        parent = self.facts.bodies.get(body.parent)
+        if parent is None:
+            return
+        for blk in parent.calls():
+            t = blk.term
+            if (callee_path(t) or "") not in ("std::array::from_fn", "core::array::from_fn") or not t["args"]:
+                continue
+            pl = t["args"][0].get("move") or t["args"][0].get("copy")
+            if pl is None:
+                continue
+            made_here = any(st_["k"] == "assign" and st_["place"]["l"] == pl["l"] and st_["rv"]["k"] == "agg" and
+                            (st_["rv"].get("closure") == body.path or body.path in str(st_["rv"].get("adt") or st_["rv"].get("name") or st_["rv"]))
+                            for b2 in parent.live_blocks() for st_ in b2.stmts)
+            if not made_here:
+                continue
+            dty = self.ty(t["dest"]["ty"])
+            n = dty.get("len") if dty.get("k") == "array" else None
+            if isinstance(n, str) and not n.isdigit():
+                n = fr.subst.get(n) if isinstance(fr.subst, dict) else None
+            try:
+                n = int(n)
+            except (TypeError, ValueError):
+                return
+            v = st.env.get((("L", fr.id, 2),))
+            if v is not None and v[0] == "int":
+                st.add(-v[1])
+                st.add(v[1] - (n - 1))
+            return
 
     # ------------------------------------------------------------------ termination witnesses
     def termination(self, fr, inst):
